@@ -71,6 +71,7 @@ PROPS['C16'] = {
         thm('EmmetProps.C16_html_scan', 'every string, any special-tag table: the HTML scanner model is total and every reported tag is an in-range slice starting with < and ending with >, in increasing non-overlapping order'),
         thm('EmmetProps.C16_css_scan', 'every source (unbalanced braces, unterminated strings and comments included): the CSS scanner model is total and every reported token has 0 <= start <= end <= len(source), its delimiter is -1 or an index into the source'),
         thm('EmmetProps.C16_split_value', 'every value: split_value reports only non-empty ranges 0 <= start < end <= len(value)'),
+        thm('EmmetProps.C16_html_attributes', 'every string: the attributes reported by the HTML attribute parser are ordered, non-overlapping, non-empty in-range slices (name = its range, value right after `=` = its range)'),
         thm('EmmetProps.C16_css_sorted', 'every source: CSS scanner tokens are reported in document order (a later token never starts before an earlier one nor before the position after the brace of an earlier selector)'),
         thm('EmmetProps.C16_css_match', 'every source, every position (also out of range): a CSS match() result has 0 <= start <= end <= len and 0 <= body_start <= body_end <= len'),
         thm('EmmetProps.C16_css_outward', 'every source, every position: every range listed by the CSS balanced_outward() has 0 <= start <= end <= len'),
@@ -81,9 +82,9 @@ PROPS['C16'] = {
     ],
     'domains': ['dom_html', 'dom_css'],
     'rule': 'all strings up to length 3 (quick) / 4 (thorough) over the markup alphabet `< > / = " \' a b - ! [ ] ? space` and the stylesheet alphabet `{ } : ; ( ) " \' \\ / * a - space newline`, random fragment mixes, mutated generated documents; all positions -1..len+1; html and xml mode; non-trivial = source producing at least one scanner event; distinct = distinct source',
-    'explanation': 'Range well-formedness is proved for all strings (and all positions) for the HTML scanner, the CSS scanner, split_value and the CSS match / balanced_outward / balanced_inward models; the HTML attribute parser and the no-exception clause are decided by correspondence with the model plus the oracle on the implementation.',
-    'level_text': 'Lean 4 theorems over ALL strings for the HTML scanner (total, in-range, <...> shaped, ordered events), the CSS scanner (total, 0 <= start <= end <= len, delimiter in range) and split_value (non-empty in-range tokens), the CSS match / balanced_outward / balanced_inward models (every reported range, the rule body included, for every position), plus layer-B nesting theorems for the HTML balance functions; the HTML attribute parser and exception-freedom of the Python code are at correspondence level: model = code on every explored input and the range oracle holds on the implementation.',
-    'level_note': 'Trusted: Lean kernel + standard axioms; hand-written scanner / matcher models. Range well-formedness of attributes() is not a theorem (attributes() is not modelled): it is checked exhaustively for short strings on the implementation.',
+    'explanation': 'Range well-formedness is proved for all strings (and all positions) for the HTML scanner, the HTML attribute parser, the CSS scanner, split_value and the CSS match / balanced_outward / balanced_inward models; the no-exception clause is decided by correspondence with the (total) models plus the oracle on the implementation.',
+    'level_text': 'Lean 4 theorems over ALL strings for the HTML scanner (total, in-range, <...> shaped, ordered events), the CSS scanner (total, 0 <= start <= end <= len, delimiter in range) and split_value (non-empty in-range tokens), the CSS match / balanced_outward / balanced_inward models (every reported range, the rule body included, for every position), the HTML attribute parser (ordered in-range slices), plus layer-B nesting theorems for the HTML balance functions; exception-freedom of the Python code is at correspondence level: model = code on every explored input and the range oracle holds on the implementation.',
+    'level_note': 'Trusted: Lean kernel + standard axioms; hand-written scanner / matcher models. attributes() is modelled (0 differences with the code on every explored string) and proved; `without raising` is a statement about the Python code and stays at correspondence + oracle level.',
     'assumptions': [CORR],
 }
 
